@@ -104,6 +104,20 @@ func VerifHarness_C04() {
 		verifAssert("C04.no-request-without-headroom", e.Prev < bound)
 		verifAssert("C04.request-increases", e.N > e.Prev)
 	}
+	if fleet {
+		// launch-template mode has no SetDesiredCapacity to read the target from: "lands on the
+		// bound" is what the attaches add up to
+		attached := int64(0)
+		for _, e := range w.J.Calls[mark:] {
+			if e.Kind == "Attach" && e.OK {
+				attached += e.N
+			}
+		}
+		j.increaseAttempts, j.lastTarget = 0, desired+attached
+		if attached > 0 {
+			j.increaseAttempts = 1
+		}
+	}
 	if F == 0 && verifShape(6) == 0 {
 		// below-minimum recovery: the wanted amount is observable
 		below := verifAnd(s.untainted < minEff, verifAnd(minEff <= s.total, s.total <= maxEff))
